@@ -21,6 +21,8 @@ import (
 
 const c12 = "C12"
 
+var c12big = make([]byte, 66000)
+
 type c12case struct {
 	Calls []string `json:"calls"`
 }
@@ -260,6 +262,12 @@ func (m *machine) step(a, arg int) bool {
 		case 0:
 			m.call(fmt.Sprintf("m.Field(%d).Int64(-9)", tag), reach, func() error { return h.v.Field(tag).Int64(-9) })
 		case 1:
+			if arg%5 == 4 {
+				// a payload beyond the 16-bit offset range: later and earlier fields of this message need the big table form,
+				// whichever order the tags are written in
+				m.call(fmt.Sprintf("m.Field(%d).Bytes(<66000 bytes>)", tag), reach, func() error { return h.v.Field(tag).Bytes(c12big) })
+				break
+			}
 			m.call(fmt.Sprintf("m.Field(%d).Bytes(..)", tag), reach, func() error { return h.v.Field(tag).Bytes([]byte{1, 2, 3}) })
 		default:
 			m.call(fmt.Sprintf("WriteField(m.Field(%d), 5, EncodeUint32)", tag), reach, func() error { return spec.WriteField(h.v.Field(tag), uint32(5), spec.EncodeUint32) })
